@@ -2,6 +2,7 @@
 from __future__ import annotations
 
 import ast
+import re
 
 from ..model import AnalysisError, EnumVal, dotted, norm_text, unparse, walk_no_nested
 from ..q import NONEXC, Fn, cmp_oriented
@@ -19,7 +20,7 @@ EXPLANATION = (
     "evaluated for both timer types), both in one record for self.ac_id."
 )
 ASSUMPTIONS = ["round() is Python's banker's rounding; ties are outside the decided clauses"]
-FLOORS = {"C11.R1": 12, "C11.R2": 8, "C11.R3": 18, "C11.R4": 6, "C11.R5": 8, "C11.R6": 1}
+FLOORS = {"C11.R1": 12, "C11.R2": 8, "C11.R3": 18, "C11.R4": 6, "C11.R5": 8, "C11.R6": 1, "C11.R7": 1}
 
 ZONES = ((AT4_API, "At4Zone"), (AT5_API, "At5Zone"))
 ACS = ((AT4_API, "At4AirConditioner"), (AT5_API, "At5AirConditioner"))
@@ -34,6 +35,9 @@ def run(ctx):
     from . import c04
     from .common import reuse
 
+    from . import c07
+
+    reuse(ctx, "C11.R7", [c07.r7], "a raising subscriber does not abort the loop over the records of a status frame, so the abilities/sensor flags the validity checks read are those of the latest frame for every entity (C07.R7)")
     reuse(ctx, "C11.R6", [c04.r5], "the rounded set-point reaches the wire unchanged: the set-point conversion is exact on the model's resolution grid (C04.R5)",
           keep=lambda o: "set_point" in o.construct or "setpoint" in o.construct.lower() or o.verdict != "HOLDS")
 
@@ -425,11 +429,22 @@ def r5(ctx):
 
         res = {}
         for tv in (ON, OFF):
-            mini = Mini(ctx.repo, m, {"self._ac_timer_status.on_timer": "<reported on_timer>", "self._ac_timer_status.off_timer": "<reported off_timer>"}, f.cls)
-            try:
-                kind, got = mini.value_at(f.node, {p_type: tv, p_state: "<new state>"}, stop)
-            except Unsupported as ex:
-                raise AnalysisError(f"{m.relpath}: {cls}.{meth}: timer selection left the evaluable fragment: {ex}")
+            atoms = {"self._ac_timer_status.on_timer": "<reported on_timer>", "self._ac_timer_status.off_timer": "<reported off_timer>"}
+            for _attempt in range(4):
+                mini = Mini(ctx.repo, m, dict(atoms), f.cls)
+                try:
+                    kind, got = mini.value_at(f.node, {p_type: tv, p_state: "<new state>"}, stop)
+                    break
+                except Unsupported as ex:
+                    # other object state consulted by the sender: give it a recognisable stand-in (a record whose timers are
+                    # NOT the reported ones) and look at what reaches the message then
+                    mm_ = re.search(r"attribute (self\.\w+) is not an atom", str(ex))
+                    if mm_ is None or mm_.group(1) in atoms:
+                        raise AnalysisError(f"{m.relpath}: {cls}.{meth}: timer selection left the evaluable fragment: {ex}")
+                    from ..minieval import FakeObj
+                    atoms[mm_.group(1)] = FakeObj("AcTimerControlData", on_timer=f"<on_timer of {mm_.group(1)}>", off_timer=f"<off_timer of {mm_.group(1)}>", ac_number=0)
+            else:
+                raise AnalysisError(f"{m.relpath}: {cls}.{meth}: timer selection left the evaluable fragment")
             res[tv.name] = got if kind == "value" else (f"<{kind}>", f"<{kind}>")
         for i, (field, mine, other) in enumerate((("on_timer", ON, OFF), ("off_timer", OFF, ON))):
             v_mine, v_other = res[mine.name][i], res[other.name][i]
